@@ -464,7 +464,7 @@ def check(ctx):
         return re.match(r"^(six\.viewkeys\(\w+\['monitors'\]\)|"
                         r"\w+\['monitors'\]\.keys\(\)|"
                         r"set\(\w+\['monitors'\]\)|\w+\['monitors'\])$",
-                        N.txt(expr)) is not None
+                        K.rtxt(wf, expr)) is not None
 
     def listed(expr):
         par = wf.params()[0]
